@@ -188,9 +188,9 @@ suffix word, window 255 with 12-character n-grams on a 750-character text; same 
         (0u8..4).map(|kind| ScaleCase { kind }),
         |c: &ScaleCase| test_case(&scale_model(c)).map(|mut i| { i.nontrivial = true; i }),
     );
-    let n = rep.n(15000, 150000);
+    let n = rep.n(15000, 750000);
     rep.run_prop("model-text", RULE, n, || model_case(ModelCfg::BOUNDARY), test_case);
-    let n = rep.n(8000, 80000);
+    let n = rep.n(8000, 400000);
     rep.run_prop(
         "model-text-tagmodels",
         "same oracle on models that also carry tag models, so that predict_tags=true routes \
